@@ -662,7 +662,7 @@ impl Property for C04 {
         vec![
             ("shipped".into(), crate::corpus::model_json_files().len() as u64),
             ("converted".into(), real_project_files().len() as u64),
-            ("generated".into(), tier.pick(2500, 150_000)),
+            ("generated".into(), tier.pick(8000, 150_000)),
         ]
     }
     fn required(&self, _tier: Tier) -> Vec<(String, u64)> {
